@@ -436,6 +436,14 @@ func doMinimise(t *testing.T) {
 	emit(w, map[string]any{"kind": "minimised", "ok": true, "replay": out})
 }
 
+// Tier returns the tier of the current batch ("quick" or "thorough").
+func Tier() string {
+	if v := os.Getenv("SIM_TIER"); v != "" {
+		return v
+	}
+	return "quick"
+}
+
 // Hex is a small helper for readable byte dumps in traces.
 func Hex(b []byte, max int) string {
 	if len(b) <= max {
